@@ -642,17 +642,39 @@ def c02(ctx):
     rng = vlib.random.Random(ctx.seed * 37 + 2)
     quick = ctx.tier == "quick"
     convs = small_convs(ctx, 6 if quick else 40, kinds=("grid-one", "grid", "mix"), max_bytes=900 if quick else 3000)
+    # always include conversations with record batches (varint lengths and counts): the smallest
+    # Produce request and Fetch response that carry records with headers
+    withrec = sorted((x for x in gen(ctx) if x not in convs and any(".headers" in t["p"] for e in x["exch"] for t in e["req"] + e["resp"])),
+                     key=lambda x: len(x["client"]) + len(x["server"]))
+    for want in ("Produce", "Fetch"):
+        for x in withrec:
+            if x["exch"][0]["name"] == want:
+                convs.append(x)
+                break
     cases, meta = [], []
     for conv in convs:
         fields = length_fields(conv)
         if quick and len(fields) > 14:
-            fields = fields[:4] + rng.sample(fields[4:], 10)
+            varf = [f for f in fields[4:] if f[3] != "fix"]
+            fixf = [f for f in fields[4:] if f[3] == "fix"]
+            fields = fields[:4] + rng.sample(fixf, min(len(fixf), 8)) + varf[:14]
         for f in fields:
             for v in boundary_values(f[4]):
                 c, s = substitute(conv, f, v)
                 for tail in (0, 1, 2):
                     cases.append(case(c, s, tail=tail))
                     meta.append((conv["name"], f[5], v, tail))
+                # the same over-declared field with the stream ending inside the message (at any offset
+                # after the field): what is declared must not drive the cost when the bytes never come
+                if v in (65536, CAP, CAP + 1, INT32_MAX, 0xFFFFFFFF):
+                    side, off = f[0], f[1]
+                    data = c if side == "c" else s
+                    newlen = len(data) // 2 - (len(conv["client" if side == "c" else "server"]) // 2 - f[2])
+                    cut = min(len(data) // 2, off + newlen + rng.choice([0, 1, 2, 5, 9]))
+                    tc, ts = (data[:2 * cut], s) if side == "c" else (c, data[:2 * cut])
+                    tail = rng.choice([0, 1, 2])
+                    cases.append(case(tc, ts, tail=tail))
+                    meta.append((conv["name"], f[5] + " (stream cut after the field)", v, tail))
     # a large message made of nested over-declared arrays and one of cap size
     big = bytes.fromhex(convs[0]["client"])
     for tail in (0, 1, 2):
